@@ -5,9 +5,10 @@
    4. allDatesRange
    5. sums over filtered lists, the int64 guard
    6. report_sorted = report_spec; rows_sum, rows_chronological, sort invariance
-   7. today, print --with-totals *)
-From Klog Require Import Base.Prelude Model.Calendar Model.Values Model.Record Model.Eval Model.Period Model.Report
-  Proofs.Calendar Proofs.Period Proofs.Values Proofs.Eval.
+   7. today, print --with-totals
+   8. records that come out of the parser carry valid dates *)
+From Klog Require Import Base.Prelude Base.Utf8 Model.Calendar Model.Values Model.Record Model.Lines Model.Parser Model.Eval
+  Model.Period Model.Report Proofs.Calendar Proofs.Period Proofs.Values Proofs.Eval Proofs.Parser.
 From Coq Require Import ZifyBool Permutation Sorted.
 Open Scope Z_scope.
 
@@ -717,19 +718,13 @@ Proof.
   rewrite (proj2 (mem_z_in _ _) (H r (or_introl eq_refl))). f_equal. apply IH. intros x Hx. apply H. right. exact Hx.
 Qed.
 
-(* every record's date is among the dates the rows are made from *)
-Lemma report_dates_cover fill s : Forall vrec s -> sorted s -> forall r, In r s -> In (rdate r) (report_dates fill s).
+(* a sorted list runs from its first to its last element *)
+Lemma sorted_bounds first s' r : sorted (first :: s') -> In r (first :: s') ->
+  days_of (rdate first) <= days_of (rdate r) <= days_of (rdate (last (first :: s') first)).
 Proof.
-  intros V Hs r Hr. destruct s as [|first s']; [destruct Hr|]. set (s := first :: s') in *.
-  unfold report_dates. fold s. destruct fill; [|apply in_map; exact Hr].
-  assert (Vf : valid (rdate first)) by (inversion V; assumption).
-  assert (Vl : valid (rdate (last s first))).
-  { rewrite Forall_forall in V. apply V. apply last_in. discriminate. }
-  apply range_dates_in; [assumption|assumption|apply sorted_first_le_last; exact Hs|].
-  rewrite Forall_forall in V. split; [exact (V r Hr)|]. split.
+  intros Hs Hr. split.
   - inversion Hs as [|? ? _ Hf]; subst. destruct Hr as [<-|Hr]; [lia|]. rewrite Forall_forall in Hf. exact (Hf r Hr).
-  - (* r is before or at the last element *)
-    clear Vf Vl. revert Hs Hr. generalize s. intros l Hl Hin.
+  - revert Hs Hr. generalize (first :: s'). intros l Hl Hin.
     induction l as [|x l IH]; [destruct Hin|].
     inversion Hl as [|? ? Hl' Hx]; subst. destruct l as [|y l].
     + destruct Hin as [<-|[]]. cbn. lia.
@@ -737,6 +732,33 @@ Proof.
       destruct Hin as [<-|Hin].
       * rewrite Forall_forall in Hx. apply Hx. apply last_in. discriminate.
       * apply IH; assumption.
+Qed.
+
+(* every record's date is among the dates the rows are made from *)
+Lemma report_dates_cover fill s : Forall vrec s -> sorted s -> forall r, In r s -> In (rdate r) (report_dates fill s).
+Proof.
+  intros V Hs r Hr. destruct s as [|first s']; [destruct Hr|].
+  unfold report_dates. destruct fill; [|apply in_map; exact Hr].
+  assert (Vf : valid (rdate first)) by (inversion V; assumption).
+  assert (Vl : valid (rdate (last (first :: s') first))).
+  { rewrite Forall_forall in V. apply V. apply last_in. discriminate. }
+  apply range_dates_in; [assumption|assumption|apply sorted_first_le_last; exact Hs|].
+  rewrite Forall_forall in V. split; [exact (V r Hr)|]. apply sorted_bounds; assumption.
+Qed.
+
+(* a date of the list has a row, unless its period was seen before *)
+Lemma rows_spec_cover a df s d0 : forall dates seen, In d0 dates -> ~ In (hv a d0) seen ->
+  exists row, In row (rows_spec a df s seen dates) /\ hv a (row_date row) = hv a d0.
+Proof.
+  induction dates as [|d rest IH]; intros seen Hin Hns; [destruct Hin|]. cbn [rows_spec].
+  destruct (mem_z (hv a d) seen) eqn:E.
+  - destruct Hin as [->|Hin]; [apply mem_z_in in E; contradiction|]. apply IH; assumption.
+  - destruct (Z.eq_dec (hv a d) (hv a d0)) as [He|Hne'].
+    + exists (row_spec a df s d). split; [left; reflexivity|exact He].
+    + destruct Hin as [->|Hin]; [congruence|].
+      destruct (IH (hv a d :: seen) Hin) as (row & Hrow & E2).
+      * intros [Hx|Hx]; [congruence|contradiction].
+      * exists row. split; [right; exact Hrow|exact E2].
 Qed.
 
 Theorem rows_spec_sum a fill df s (w : record -> Z) (f : row -> Z) : Forall vrec s -> sorted s ->
@@ -1002,7 +1024,14 @@ Record report_facts (a : agg) (fill df : bool) (rs : list record) (rep : report)
   (* chronological, one row per period *)
   rf_chrono : StronglySorted Z.lt (map (fun row => pk a (row_date row)) (rep_rows rep));
   (* without --fill no row is empty *)
-  rf_nofill : fill = false -> Forall (fun row => row_cells row <> None) (rep_rows rep)
+  rf_nofill : fill = false -> Forall (fun row => row_cells row <> None) (rep_rows rep);
+  (* with --fill every period between two records has its row ... *)
+  rf_fill : fill = true -> forall r1 r2 d, In r1 rs -> In r2 rs -> valid d ->
+            days_of (rdate r1) <= days_of d <= days_of (rdate r2) ->
+            exists row, In row (rep_rows rep) /\ pk a (row_date row) = pk a d;
+  (* ... and no row lies outside the first and the last record's date *)
+  rf_within : Forall (fun row => exists r1 r2, In r1 rs /\ In r2 rs /\
+                days_of (rdate r1) <= days_of (row_date row) <= days_of (rdate r2)) (rep_rows rep)
 }.
 
 Lemma report_spec_facts a fill df rs s : s <> [] -> Forall vrec s -> sorted s -> views_guard s -> Permutation s rs ->
@@ -1037,22 +1066,9 @@ Proof.
     cbn [row_spec row_date]. split; [exact (Vd d Hd)|].
     apply (row_spec_period_cells a df s rs d V (Vd d Hd) Hp).
   - intros r Hr. assert (Hr' : In r s) by (eapply Permutation_in; [apply Permutation_sym; exact Hp|exact Hr]).
-    (* the rows cover the hashes of all dates: otherwise the sum lemma could not hold; directly: *)
     pose proof (report_dates_cover fill s V Hs r Hr') as Hc.
     pose proof (report_dates_valid fill s V Hs) as Vd.
-    assert (Hgen : forall dates seen, Forall valid dates -> In (rdate r) dates -> ~ In (hv a (rdate r)) seen ->
-              exists row, In row (rows_spec a df s seen dates) /\ hv a (row_date row) = hv a (rdate r)).
-    { induction dates as [|d rest IH]; intros seen Vds Hin Hns; [destruct Hin|]. cbn [rows_spec].
-      inversion Vds; subst.
-      destruct (mem_z (hv a d) seen) eqn:E.
-      - destruct Hin as [->|Hin]; [apply mem_z_in in E; contradiction|]. apply IH; assumption.
-      - destruct (Z.eq_dec (hv a d) (hv a (rdate r))) as [He|Hne'].
-        + exists (row_spec a df s d). split; [left; reflexivity|exact He].
-        + destruct Hin as [->|Hin]; [congruence|].
-          destruct (IH (hv a d :: seen)) as (row & Hrow & E2); [assumption|assumption| |].
-          * intros [Hx|Hx]; [congruence|contradiction].
-          * exists row. split; [right; exact Hrow|exact E2]. }
-    destruct (Hgen _ [] Vd Hc) as (row & Hrow & E); [intros []|].
+    destruct (rows_spec_cover a df s (rdate r) _ [] Hc) as (row & Hrow & E); [intros []|].
     exists row. split; [exact Hrow|].
     destruct (rows_spec_in _ _ _ _ _ _ Hrow) as (d & Hd & ->). cbn [row_spec row_date] in *.
     rewrite Forall_forall in Vd, V. apply (hv_eq_iff_pk a); [exact (Vd d Hd)|exact (V r Hr')|exact E].
@@ -1066,6 +1082,34 @@ Proof.
     exfalso. assert (Hin : In r (filter (in_bucket a (hv a (rdate r))) (first :: s'))).
     { apply filter_In. split; [exact Hr|]. unfold in_bucket, kf_of. apply Z.eqb_refl. }
     rewrite E in Hin. destruct Hin.
+  - intros -> r1 r2 d H1 H2 Vd Hb.
+    assert (H1' : In r1 s) by (eapply Permutation_in; [apply Permutation_sym; exact Hp|exact H1]).
+    assert (H2' : In r2 s) by (eapply Permutation_in; [apply Permutation_sym; exact Hp|exact H2]).
+    destruct s as [|first s']; [congruence|].
+    pose proof (sorted_bounds first s' r1 Hs H1') as B1. pose proof (sorted_bounds first s' r2 Hs H2') as B2.
+    assert (Vf : valid (rdate first)) by (inversion V; assumption).
+    assert (Vl : valid (rdate (last (first :: s') first))).
+    { rewrite Forall_forall in V. apply V. apply last_in. discriminate. }
+    assert (Hin : In d (report_dates true (first :: s'))).
+    { unfold report_dates. apply range_dates_in; [assumption|assumption|apply sorted_first_le_last; exact Hs|]. split; [exact Vd|lia]. }
+    destruct (rows_spec_cover a df (first :: s') d _ [] Hin) as (row & Hrow & E); [intros []|].
+    exists row. split; [exact Hrow|].
+    destruct (rows_spec_in _ _ _ _ _ _ Hrow) as (d' & Hd' & ->). cbn [row_spec row_date] in *.
+    pose proof (report_dates_valid true (first :: s') V Hs) as Vds. rewrite Forall_forall in Vds.
+    apply (hv_eq_iff_pk a); [exact (Vds d' Hd')|exact Vd|exact E].
+  - rewrite Forall_forall. intros row Hrow. destruct (rows_spec_in _ _ _ _ _ _ Hrow) as (d & Hd & ->). cbn [row_spec row_date].
+    destruct s as [|first s']; [congruence|]. unfold report_dates in Hd.
+    assert (Hfirst : In first rs) by (eapply Permutation_in; [exact Hp|left; reflexivity]).
+    assert (Hlast : In (last (first :: s') first) rs) by (eapply Permutation_in; [exact Hp|apply last_in; discriminate]).
+    destruct fill.
+    + assert (Vf : valid (rdate first)) by (inversion V; assumption).
+      assert (Vl : valid (rdate (last (first :: s') first))).
+      { rewrite Forall_forall in V. apply V. apply last_in. discriminate. }
+      apply (range_dates_in _ _ d Vf Vl (sorted_first_le_last _ _ Hs)) in Hd as [_ Hd].
+      exists first, (last (first :: s') first). auto.
+    + apply in_map_iff in Hd as (r & <- & Hr).
+      assert (In r rs) by (eapply Permutation_in; [exact Hp|exact Hr]).
+      exists r, r. split; [assumption|]. split; [assumption|lia].
 Qed.
 
 (* klog report [--now], whole command: every fact above, with rs' the records after closing open ranges *)
@@ -1113,3 +1157,329 @@ Proof.
   intros Hn G. destruct (eval3_spec rs' G) as (Et & Es & Ed & _).
   unfold total_cmd. rewrite Hn. cbn [bind]. rewrite Et. cbn [bind]. rewrite Es. cbn [bind]. rewrite Ed. reflexivity.
 Qed.
+
+(* ---- klog today ---- *)
+
+Lemma filter_split_perm {A} (p : A -> bool) l : Permutation (filter p l ++ filter (fun x => negb (p x)) l) l.
+Proof.
+  induction l as [|x l IH]; cbn [filter]; [constructor|].
+  destruct (p x); cbn [negb app].
+  - apply perm_skip. exact IH.
+  - eapply Permutation_trans; [apply Permutation_sym, Permutation_middle|]. apply perm_skip. exact IH.
+Qed.
+
+Lemma at_iff d r : cdate_eqb (rdate r) d = true <-> rdate r = d.
+Proof. apply cdate_eqb_iff. Qed.
+
+(* splitIntoCurrentAndOther: current = the records dated today, or failing those the records dated yesterday *)
+Theorem today_split_spec today yesterday rs cur other isy :
+  split_today today yesterday rs = (cur, other, isy) ->
+  Permutation (cur ++ other) rs /\
+  (forall r, In r cur <-> In r rs /\ rdate r = (if isy then yesterday else today)) /\
+  (isy = true -> forall r, In r rs -> rdate r <> today) /\
+  (cur = [] -> forall r, In r rs -> rdate r <> today /\ rdate r <> yesterday).
+Proof.
+  unfold split_today.
+  set (pt := fun r : record => cdate_eqb (rdate r) today).
+  set (py := fun r : record => cdate_eqb (rdate r) yesterday).
+  change (fun r : record => negb (cdate_eqb (rdate r) today) && cdate_eqb (rdate r) yesterday)
+    with (fun r : record => negb (pt r) && py r).
+  change (fun r : record => negb (cdate_eqb (rdate r) today) && negb (cdate_eqb (rdate r) yesterday))
+    with (fun r : record => negb (pt r) && negb (py r)).
+  set (T := filter pt rs).
+  set (Y := filter (fun r => negb (pt r) && py r) rs).
+  set (O := filter (fun r => negb (pt r) && negb (py r)) rs).
+  assert (Hpt : forall r, pt r = true <-> rdate r = today) by (intros r; apply at_iff).
+  assert (Hpy : forall r, py r = true <-> rdate r = yesterday) by (intros r; apply at_iff).
+  assert (HT : forall r, In r T <-> In r rs /\ rdate r = today).
+  { intros r. unfold T. rewrite filter_In, Hpt. tauto. }
+  assert (HY : forall r, In r Y <-> In r rs /\ rdate r <> today /\ rdate r = yesterday).
+  { intros r. unfold Y. rewrite filter_In, andb_true_iff, negb_true_iff, Hpy.
+    split; intros (H1 & H2 & H3); (split; [exact H1|split; [|exact H3]]).
+    - intros E. apply Hpt in E. congruence.
+    - destruct (pt r) eqn:E; [apply Hpt in E; contradiction|reflexivity]. }
+  assert (HP : Permutation (T ++ O ++ Y) rs).
+  { eapply Permutation_trans; [|apply (filter_split_perm pt rs)]. apply Permutation_app_head.
+    assert (EY : Y = filter py (filter (fun x => negb (pt x)) rs)).
+    { unfold Y. clear. induction rs as [|x l IH]; cbn [filter]; [reflexivity|]. destruct (pt x); cbn [negb andb filter]; [exact IH|].
+      destruct (py x); rewrite IH; reflexivity. }
+    assert (EO : O = filter (fun x => negb (py x)) (filter (fun x => negb (pt x)) rs)).
+    { unfold O. clear. induction rs as [|x l IH]; cbn [filter]; [reflexivity|]. destruct (pt x); cbn [negb andb filter]; [exact IH|].
+      destruct (py x); cbn [negb]; rewrite IH; reflexivity. }
+    rewrite EY, EO. eapply Permutation_trans; [apply Permutation_app_comm|]. apply filter_split_perm. }
+  clearbody T Y O.
+  destruct T as [|t T'].
+  - destruct Y as [|y Y'].
+    + intros [= <- <- <-]. cbn [app] in *. rewrite app_nil_r in HP. split; [exact HP|]. split; [|split].
+      * intros r. split; [intros []|]. intros [Hr Hd]. apply (HT r). tauto.
+      * discriminate.
+      * intros _ r Hr. split; intros Hd.
+        -- apply (HT r). tauto.
+        -- apply (HY r). split; [exact Hr|]. split; [|exact Hd]. intros Hd2. apply (HT r). tauto.
+    + intros [= <- <- <-]. split; [|split; [|split]].
+      * cbn [app] in HP. eapply Permutation_trans; [apply Permutation_app_comm|exact HP].
+      * intros r. rewrite HY. split; [tauto|]. intros [Hr Hd]. split; [exact Hr|]. split; [|exact Hd].
+        intros Hd2. apply (HT r). tauto.
+      * intros _ r Hr Hd. apply (HT r). tauto.
+      * discriminate.
+  - intros [= <- <- <-]. split; [exact HP|]. split; [|split].
+    + exact HT.
+    + discriminate.
+    + discriminate.
+Qed.
+
+Lemma time_plus_no_crash t d : add64 (time_offset t) d <> None -> forall c, time_plus t d <> Crash c.
+Proof.
+  intros H c. unfold time_plus. destruct (add64 (time_offset t) d) as [mins|]; [|congruence].
+  destruct ((2 * 1440 <=? mins) || (mins <? -1440)); [discriminate|].
+  destruct (mins <? 0); [|destruct (1440 <? mins)]; unfold new_time;
+    repeat match goal with |- context [if ?b then _ else _] => destruct b end; discriminate.
+Qed.
+
+Lemma end_time_ok h m d : valid_clock h m -> Z.abs d + 1439 <= max64 ->
+  exists e, end_time (clock h m 0) d = Ok e.
+Proof.
+  intros Hc Hd. unfold max64 in Hd. unfold end_time, dur_plus.
+  assert (E : add64 0 (- d) = Some (- d)).
+  { unfold add64. replace (sm_ok 0) with true by reflexivity.
+    replace (sm_ok (- d)) with true by (unfold sm_ok, sm_min, max_int64; lia).
+    cbn [andb]. replace (0 + - d) with (- d) by lia.
+    replace (sm_ok (- d)) with true by (unfold sm_ok, sm_min, max_int64; lia). reflexivity. }
+  rewrite E. cbn [bind].
+  assert (Hadd : add64 (time_offset (clock h m 0)) (- d) <> None).
+  { rewrite clock_offset by lia. destruct Hc as [Hh Hm]. unfold add64.
+    replace (sm_ok (60 * h + m + 1440 * 0)) with true by (unfold sm_ok, sm_min, max_int64; lia).
+    replace (sm_ok (- d)) with true by (unfold sm_ok, sm_min, max_int64; lia).
+    replace (sm_ok (60 * h + m + 1440 * 0 + - d)) with true by (unfold sm_ok, sm_min, max_int64; lia).
+    discriminate. }
+  pose proof (time_plus_no_crash (clock h m 0) (- d) Hadd) as Hn.
+  destruct (time_plus (clock h m 0) (- d)) as [t|e|c]; [eexists; reflexivity|eexists; reflexivity|].
+  exfalso. exact (Hn c eq_refl).
+Qed.
+
+Definition triple (rs : list record) : Z * Z * Z := (spec_total rs, spec_should rs, spec_total rs - spec_should rs).
+Definition add3 (x y : Z * Z * Z) : Z * Z * Z :=
+  let '(a, b, c) := x in let '(a', b', c') := y in (a + a', b + b', c + c').
+
+(* klog today [--now]: the two rows are the figures of the two parts, and add up to klog total's figures *)
+Theorem today_cmd_spec now_flag today yesterday h m rs rs' :
+  valid_clock h m -> plus_days today (-1) = Ok yesterday ->
+  apply_now now_flag today h m rs = Ok rs' -> gsize rs' + 1439 <= max64 ->
+  exists v cur other,
+    today_cmd now_flag today h m rs = Ok v /\
+    split_today today yesterday rs' = (cur, other, tv_yesterday v) /\
+    Permutation (cur ++ other) rs' /\
+    tv_has_current v = negb (match cur with [] => true | _ => false end) /\
+    tv_current v = triple cur /\ tv_other v = triple other /\
+    tv_all v = add3 (tv_current v) (tv_other v) /\
+    tv_all v = triple rs'.
+Proof.
+  intros Hc Hy Hn G. unfold max64 in G.
+  destruct (split_today today yesterday rs') as [[cur other] isy] eqn:Es.
+  destruct (today_split_spec _ _ _ _ _ _ Es) as (Hp & _).
+  assert (Gr : views_guard rs') by (unfold views_guard; lia).
+  assert (Gco : views_guard (cur ++ other)) by (eapply guard_perm; [apply Permutation_sym; exact Hp|exact Gr]).
+  destruct (guard_app _ _ Gco) as [Gc Go].
+  destruct (eval3_spec cur Gc) as (Ect & Ecs & Ecd & Bc).
+  destruct (eval3_spec other Go) as (Eot & Eos & Eod & Bo).
+  assert (Hsz : gsize cur + gsize other = gsize rs') by (rewrite <- gsize_app; apply gsize_perm; exact Hp).
+  assert (Ht : spec_total rs' = spec_total cur + spec_total other).
+  { rewrite <- (spec_total_perm _ _ Hp). apply spec_total_app. }
+  assert (Hs : spec_should rs' = spec_should cur + spec_should other).
+  { unfold spec_should. rewrite <- (zsum_perm _ _ (Permutation_map should_minutes Hp)), map_app, zsum_app. reflexivity. }
+  destruct (end_time_ok h m (spec_total cur - spec_should cur) Hc ltac:(unfold max64; lia)) as (ce & Ece).
+  destruct (end_time_ok h m (spec_total rs' - spec_should rs') Hc ltac:(unfold max64; lia)) as (ge & Ege).
+  eexists. exists cur, other. split.
+  - unfold today_cmd. rewrite Hn. cbn [bind]. rewrite Hy. cbn [bind]. rewrite (new_time_clock h m Hc). cbn [bind].
+    rewrite Es. unfold eval3. rewrite Ect. cbn [bind]. rewrite Ecs. cbn [bind]. rewrite Ecd. cbn [bind].
+    rewrite Ece. cbn [bind]. rewrite Eot. cbn [bind]. rewrite Eos. cbn [bind]. rewrite Eod. cbn [bind].
+    unfold dur_plus, add64.
+    replace (sm_ok (spec_total cur)) with true by (unfold sm_ok, sm_min, max_int64; lia).
+    replace (sm_ok (spec_total other)) with true by (unfold sm_ok, sm_min, max_int64; lia).
+    replace (sm_ok (spec_total cur + spec_total other)) with true by (unfold sm_ok, sm_min, max_int64; lia).
+    cbn [andb bind].
+    replace (sm_ok (spec_should cur)) with true by (unfold sm_ok, sm_min, max_int64; lia).
+    replace (sm_ok (spec_should other)) with true by (unfold sm_ok, sm_min, max_int64; lia).
+    replace (sm_ok (spec_should cur + spec_should other)) with true by (unfold sm_ok, sm_min, max_int64; lia).
+    cbn [andb bind].
+    rewrite (proj1 (diff_spec (spec_should cur + spec_should other) (spec_total cur + spec_total other))) by (unfold fits; lia).
+    cbn [bind]. rewrite <- Ht, <- Hs, Ege. cbn [bind]. reflexivity.
+  - cbn [tv_yesterday tv_has_current tv_current tv_other tv_all]. split; [reflexivity|]. split; [exact Hp|].
+    split; [destruct cur; reflexivity|]. split; [reflexivity|]. split; [reflexivity|]. unfold triple, add3.
+    split; [f_equal; [f_equal|]; lia|reflexivity].
+Qed.
+
+(* ---- klog print --with-totals ---- *)
+
+Lemma total_single r : abs_fit [r] -> total [r] = Ok (rec_total r).
+Proof.
+  intros H. rewrite (total_spec _ (abs_fit_no_overflow _ H)). rewrite spec_total_wsum. unfold wsum. cbn [map zsum fold_right]. f_equal. lia.
+Qed.
+
+Theorem with_totals_spec rs : abs_fit rs ->
+  exists l, with_totals rs = Ok l /\
+    l = map (fun r => (rec_total r, map entry_minutes (rec_entries r))) rs /\
+    Forall2 (fun r p => total [r] = Ok (fst p) /\ snd p = map entry_minutes (rec_entries r) /\ fst p = zsum (snd p)) rs l /\
+    zsum (map fst l) = spec_total rs /\
+    total rs = Ok (zsum (map fst l)).
+Proof.
+  intros H. exists (map (fun r => (rec_total r, map entry_minutes (rec_entries r))) rs).
+  assert (Hall : forall r, In r rs -> total [r] = Ok (rec_total r)).
+  { clear - H. induction rs as [|x rs IH]; intros r Hin; [destruct Hin|]. destruct Hin as [<-|Hr].
+    - apply total_single. change (x :: rs) with ([x] ++ rs) in H. apply abs_fit_app in H. tauto.
+    - apply IH; [|exact Hr]. change (x :: rs) with ([x] ++ rs) in H. apply abs_fit_app in H. tauto. }
+  split; [|split; [reflexivity|split; [|split]]].
+  - unfold with_totals. apply map_outcome_ok. intros r Hr. rewrite (Hall r Hr). reflexivity.
+  - clear H. induction rs as [|x rs IH]; cbn [map]; constructor.
+    + cbn [fst snd]. split; [apply Hall; left; reflexivity|]. split; [reflexivity|].
+      unfold rec_total. rewrite map_entry_minutes. reflexivity.
+    + apply IH. intros r Hr. apply Hall. right. exact Hr.
+  - rewrite map_map. cbn [fst]. symmetry. apply spec_total_wsum.
+  - rewrite map_map. cbn [fst]. change (zsum (map (fun x => rec_total x) rs)) with (wsum rec_total rs).
+    rewrite <- spec_total_wsum. apply total_spec, abs_fit_no_overflow, H.
+Qed.
+
+(* ================= 8. parsed records ================= *)
+
+(* ---- records that come out of the parser carry valid dates ---- *)
+
+Lemma app_ne {A} (l : list A) x : l ++ [x] <> [].
+Proof. destruct l; discriminate. Qed.
+
+Lemma parse_entries_errs_ne fuel : forall style ln ls es errs, errs <> [] ->
+  snd (parse_entries fuel style ln ls es errs) <> [].
+Proof.
+  induction fuel as [|k IH]; intros style ln ls es errs H; cbn [parse_entries]; [exact H|].
+  destruct ls as [|l rest]; [exact H|]. cbv zeta.
+  destruct (negb (has_prefix style (l_text l)) || is_space_or_tab (peek (utf8_decode (l_text l)) (length style))); [apply app_ne|].
+  destruct (parse_entry_value ln (utf8_decode (l_text l)) (length style)) as [e|d p|r p|o sp p].
+  - apply IH. apply app_ne.
+  - destruct (parse_entry_summary_more style (S ln) rest _) as [[[summary serr] rest'] ln'].
+    destruct serr; apply IH; [apply app_ne|exact H].
+  - destruct (parse_entry_summary_more style (S ln) rest _) as [[[summary serr] rest'] ln'].
+    destruct serr; apply IH; [apply app_ne|exact H].
+  - destruct (parse_entry_summary_more style (S ln) rest _) as [[[summary serr] rest'] ln'].
+    destruct serr; [apply IH; apply app_ne|]. destruct (has_open_entry es); apply IH; [apply app_ne|exact H].
+Qed.
+
+Lemma parse_summary_lines_errs_ne ls : forall ln acc errs a e' st r n,
+  parse_summary_lines ln ls acc errs = (a, e', st, r, n) -> errs <> [] -> e' <> [].
+Proof.
+  induction ls as [|l rest IH]; intros ln acc errs a e' st r n H Hne; cbn [parse_summary_lines] in H.
+  - injection H as <- <- <- <- <-. exact Hne.
+  - destruct (find_indentation (l_text l)); [injection H as <- <- <- <- <-; exact Hne|]. cbv zeta in H.
+    destruct (match utf8_decode (l_text l) with [] => true | c :: _ => is_zs c || (c =? 9)%N end).
+    + eapply IH; [exact H|apply app_ne].
+    + eapply IH; [exact H|exact Hne].
+Qed.
+
+Lemma parse_date_valid s d : parse_date s = Ok d -> valid (dt d).
+Proof.
+  unfold parse_date. do 11 (destruct s as [|? s]; try discriminate).
+  destruct (_ && _); [|discriminate]. destruct (Nat.eqb _ 1); [discriminate|].
+  destruct (valid_ymd _ _ _) eqn:E; [|discriminate]. intros [= <-]. exact E.
+Qed.
+
+Lemma parse_headline_valid ln cs d sh es : parse_headline ln cs = HeadRec d sh es -> valid (dt d).
+Proof.
+  unfold parse_headline. destruct (is_space_or_tab (peek cs 0)); [discriminate|].
+  destruct (peek_until is_space_or_tab cs 0) as [date_text b].
+  destruct (parse_date (str date_text)) as [d0| |] eqn:Ed; try discriminate.
+  apply parse_date_valid in Ed. cbv zeta.
+  repeat match goal with
+         | |- context [if ?b then _ else _] => destruct b
+         | |- context [let '(_, _) := ?x in _] => destruct x
+         | |- context [match parser_duration ?x with _ => _ end] => destruct (parser_duration x)
+         end; intros [= <- _ _]; exact Ed.
+Qed.
+
+Theorem parse_record_valid b r : parse_record b = Ok (inl r) -> vrec r.
+Proof.
+  unfold parse_record. destruct (significant_lines b) as [[sig head] tl]. destruct sig as [|hl rest]; [discriminate|].
+  destruct (parse_headline head (utf8_decode (l_text hl))) as [e|d sh es] eqn:Eh.
+  - (* no date: the error of the headline survives to the end *)
+    destruct (parse_summary_lines (S head) rest [] [e]) as [[[[summary errs1] style] rest1] ln1] eqn:Es.
+    pose proof (parse_summary_lines_errs_ne _ _ _ _ _ _ _ _ _ Es ltac:(discriminate)) as Hne.
+    destruct style as [st|].
+    + pose proof (parse_entries_errs_ne (length rest1) st ln1 rest1 [] errs1 Hne) as Hne2.
+      destruct (parse_entries (length rest1) st ln1 rest1 [] errs1) as [entries errs2]. cbn [snd] in Hne2.
+      destruct errs2; [congruence|discriminate].
+    + destruct errs1; [congruence|discriminate].
+  - apply parse_headline_valid in Eh.
+    destruct (parse_summary_lines (S head) rest [] es) as [[[[summary errs1] style] rest1] ln1].
+    destruct (match style with Some st => parse_entries (length rest1) st ln1 rest1 [] errs1 | None => ([], errs1) end) as [entries errs2].
+    destruct errs2; [|discriminate]. intros [= <-]. exact Eh.
+Qed.
+
+Theorem parsed_records_valid s rs bs : parse_text s = Ok (Parsed rs bs) -> Forall vrec rs.
+Proof.
+  intros H. destruct (proj1 (parse_text_blockwise s) rs bs H) as [_ HF]. clear H.
+  induction HF as [|r b rs' bs' Hr HF IH]; constructor; [|exact IH]. eapply parse_record_valid; exact Hr.
+Qed.
+
+(* ================= 9. the statements of Properties/C12.v, spelled out ================= *)
+
+Lemma sorted_lt_inj {A} (f : A -> Z) l x y : StronglySorted Z.lt (map f l) -> In x l -> In y l -> f x = f y -> x = y.
+Proof.
+  induction l as [|z l IH]; intros Hs Hx Hy E; [destruct Hx|]. cbn [map] in Hs.
+  inversion Hs as [|? ? Hs' Hz]; subst. rewrite Forall_map, Forall_forall in Hz.
+  destruct Hx as [<-|Hx], Hy as [<-|Hy].
+  - reflexivity.
+  - specialize (Hz _ Hy). lia.
+  - specialize (Hz _ Hx). lia.
+  - apply IH; assumption.
+Qed.
+
+Theorem rows_sum a fill df now_flag today h m rs rs' :
+  rs <> [] -> Forall vrec rs -> apply_now now_flag today h m rs = Ok rs' -> views_guard rs' ->
+  exists rep, report_cmd a fill df now_flag today h m rs = Ok (Some rep) /\
+    zsum (map row_total (rep_rows rep)) = c_total (rep_grand rep) /\
+    rep_grand rep = cells_spec df rs' /\
+    total_cmd now_flag today h m rs
+      = Ok (spec_total rs', spec_should rs', spec_total rs' - spec_should rs', Z.of_nat (length rs')) /\
+    (df = true -> zsum (map row_should (rep_rows rep)) = spec_should rs' /\
+                  zsum (map row_diff (rep_rows rep)) = spec_total rs' - spec_should rs') /\
+    Forall (fun row => row_cells row = None ->
+              row_total row = 0 /\ forall r, In r rs' -> pk a (rdate r) <> pk a (row_date row)) (rep_rows rep) /\
+    (fill = false -> Forall (fun row => row_cells row <> None) (rep_rows rep)).
+Proof.
+  intros Hne V Hn G. destruct (report_cmd_facts a fill df now_flag today h m rs rs' Hne V Hn G) as (rep & E & F).
+  exists rep. split; [exact E|]. destruct F.
+  split; [assumption|]. split; [assumption|]. split; [apply total_cmd_spec; assumption|].
+  split; [intros Hd; split; auto|]. split; [|assumption].
+  eapply Forall_impl; [|exact rf_row_cells0]. intros row [_ Hc] Hnone. split; [unfold row_total; rewrite Hnone; reflexivity|].
+  intros r Hr Hpk. rewrite Hnone in Hc. unfold period_cells in Hc.
+  assert (Hin : In r (filter (same_pk a (row_date row)) rs')).
+  { apply filter_In. split; [exact Hr|]. unfold same_pk. apply Z.eqb_eq. exact Hpk. }
+  destruct (filter (same_pk a (row_date row)) rs'); [destruct Hin|discriminate].
+Qed.
+
+Theorem rows_partition a fill df now_flag today h m rs rs' :
+  rs <> [] -> Forall vrec rs -> apply_now now_flag today h m rs = Ok rs' -> views_guard rs' ->
+  exists rep, report_cmd a fill df now_flag today h m rs = Ok (Some rep) /\
+    (forall r, In r rs' -> exists row, In row (rep_rows rep) /\ pk a (row_date row) = pk a (rdate r) /\
+       forall row', In row' (rep_rows rep) -> pk a (row_date row') = pk a (rdate r) -> row' = row) /\
+    Forall (fun row => valid (row_date row) /\ row_cells row = period_cells a df rs' (row_date row)) (rep_rows rep).
+Proof.
+  intros Hne V Hn G. destruct (report_cmd_facts a fill df now_flag today h m rs rs' Hne V Hn G) as (rep & E & F).
+  exists rep. split; [exact E|]. destruct F. split; [|assumption].
+  intros r Hr. destruct (rf_cover0 r Hr) as (row & Hrow & Hpk). exists row. split; [exact Hrow|]. split; [exact Hpk|].
+  intros row' Hrow' Hpk'. apply (sorted_lt_inj (fun row => pk a (row_date row)) (rep_rows rep)); try assumption. lia.
+Qed.
+
+Theorem rows_chronological a fill df now_flag today h m rs rs' :
+  rs <> [] -> Forall vrec rs -> apply_now now_flag today h m rs = Ok rs' -> views_guard rs' ->
+  exists rep, report_cmd a fill df now_flag today h m rs = Ok (Some rep) /\
+    StronglySorted Z.lt (map (fun row => pk a (row_date row)) (rep_rows rep)) /\
+    Forall (fun row => exists r1 r2, In r1 rs' /\ In r2 rs' /\
+              days_of (rdate r1) <= days_of (row_date row) <= days_of (rdate r2)) (rep_rows rep) /\
+    (fill = true -> forall r1 r2 d, In r1 rs' -> In r2 rs' -> valid d ->
+       days_of (rdate r1) <= days_of d <= days_of (rdate r2) ->
+       exists row, In row (rep_rows rep) /\ pk a (row_date row) = pk a d).
+Proof.
+  intros Hne V Hn G. destruct (report_cmd_facts a fill df now_flag today h m rs rs' Hne V Hn G) as (rep & E & F).
+  exists rep. split; [exact E|]. destruct F. auto.
+Qed.
+
+Theorem sort_spec rs : Forall vrec rs -> Permutation (sort_by_date rs) rs /\ sorted (sort_by_date rs).
+Proof. intros V. split; [apply sort_perm|apply sort_sorted; exact V]. Qed.
